@@ -925,6 +925,52 @@ def cmd_crosscheck(module, n, seed, names):
     print(json.dumps(out))
 
 
+def scripted_rng_selfcheck():
+    """the scripted generator of this harness raises ValueError in exactly the situations numpy's Generator does
+    (the symbolic model of lib.py is tied to the scripted one by the contracts on rng.py, proved and cross-checked)"""
+    import numpy as np
+    n_cmp = 0
+
+    def outcome(f):
+        try:
+            r = f()
+            return ('ok', None if r is None else (len(r) if hasattr(r, '__len__') else 1))
+        except ValueError:
+            return ('ValueError', None)
+        except Exception as e:      # any other exception type is reported as itself
+            return (type(e).__name__, None)
+
+    for n in range(-2, 6):
+        real, mine = np.random.default_rng(0), ScriptedRng([], 0)
+        a, b = outcome(lambda: real.choice(n)), outcome(lambda: mine.choice(n))
+        assert a[0] == b[0], ('choice(n)', n, a, b)
+        n_cmp += 1
+        for size in range(-1, 7):
+            for replace in (True, False):
+                real, mine = np.random.default_rng(0), ScriptedRng([], 0)
+                a = outcome(lambda: real.choice(n, size=size, replace=replace))
+                b = outcome(lambda: mine.choice(n, size=size, replace=replace))
+                assert a == b, ('choice(n, size, replace)', n, size, replace, a, b)
+                if a[0] == 'ok' and not replace:
+                    v = list(mine.choice(n, size=size, replace=False))
+                    assert len(set(v)) == len(v) and all(0 <= x < n for x in v), ('sample', n, size, v)
+                n_cmp += 1
+    for low in range(-3, 4):
+        for high in range(-3, 4):
+            real, mine = np.random.default_rng(0), ScriptedRng([], 0)
+            a, b = outcome(lambda: real.integers(low, high)), outcome(lambda: mine.integers(low, high))
+            assert a[0] == b[0], ('integers', low, high, a, b)
+            if b[0] == 'ok':
+                assert low <= mine.integers(low, high) < high
+            n_cmp += 1
+    for k in range(0, 6):
+        x = list(range(k))
+        ScriptedRng([], k).shuffle(x)
+        assert sorted(x) == list(range(k)), ('shuffle', k, x)
+        n_cmp += 1
+    return {'generator_error_cases_compared': n_cmp}
+
+
 def main():
     setup_path()
     cmd = sys.argv[1]
@@ -936,7 +982,9 @@ def main():
         cmd_crosscheck(sys.argv[2], int(sys.argv[3]), int(sys.argv[4]), sys.argv[5:])
     elif cmd == 'libmodels':
         import libmodels      # pyvc/libmodels.py (this script's directory is sys.path[0]); free of z3
-        print(json.dumps(libmodels.selfcheck()))
+        res = libmodels.selfcheck()
+        res.update(scripted_rng_selfcheck())
+        print(json.dumps(res))
     else:
         raise SystemExit('unknown command')
 
